@@ -27,7 +27,8 @@ RULE = ('random operation histories (length 30-200) over a pool of up to 6 '
         'seed.')
 FLOOR = {'quick': 1000, 'thorough': 30000}
 REQUIRED_REACH = ['dom/reader.py:', 'dom/writer.py:']
-REQUIRED_COUNTERS = ['op:parse_shared_reader', 'op:serialise_shared_writer',
+REQUIRED_COUNTERS = ['structure_invariants_checked', 'op:edit_lists_in_place',
+                     'op:parse_shared_reader', 'op:serialise_shared_writer',
                      'op:mutate_meta_in_place', 'op:mutate_options_in_place',
                      'snapshots_compared', 'alias_scans']
 ASSUMPTIONS = [
@@ -53,6 +54,76 @@ class World(object):
 
     def snaps(self):
         return [treesnap.snapshot(t) for t in self.trees]
+
+    def structure_fail(self):
+        """The public views of one tree must agree with each other at all
+        times: subsections == [preamble, meta] + changes/files (same objects,
+        same order), iteration == subsections."""
+        self.obs.count('structure_invariants_checked')
+        for ti, t in enumerate(self.trees):
+            try:
+                subs = list(t.subsections)
+                if len(subs) != 2 + len(t.changes) or \
+                        any(a is not b for a, b in zip(subs[2:], t.changes)):
+                    return ('root_subsections_vs_changes', ti)
+                if [id(x) for x in t] != [id(x) for x in subs]:
+                    return ('root_iteration_vs_subsections', ti)
+                for c in t.changes:
+                    cs = list(c.subsections)
+                    if len(cs) != 2 + len(c.files) or \
+                            any(a is not b for a, b in zip(cs[2:], c.files)):
+                        return ('change_subsections_vs_files', ti)
+                    if cs[0] is not c.preamble_section or \
+                            cs[1] is not c.meta_section:
+                        return ('change_subsections_vs_sections', ti)
+                    for f in c.files:
+                        fs = list(f.subsections)
+                        if len(fs) != 2 or fs[0] is not f.meta_section or \
+                                fs[1] is not f.diff_section:
+                            return ('file_subsections_vs_sections', ti)
+            except Exception as e:
+                return ('raised:%s' % type(e).__name__, ti)
+        return None
+
+    def op_edit_lists(self):
+        """In-place edits of the public changes / files lists."""
+        i = self.pick()
+        t = self.trees[i]
+
+        def f():
+            r = self.rng.random()
+            if r < 0.3 and len(t.changes) > 1:
+                t.changes.reverse()
+            elif r < 0.6 and t.changes and len(t.changes[0].files) > 1:
+                t.changes[0].files.reverse()
+            elif r < 0.8 and t.changes and t.changes[-1].files:
+                c = t.changes[-1]
+                old = c.files.pop()
+                c.add_file(meta={'path': 'replacement'})
+                del old
+            elif t.changes:
+                c = self.rng.choice(t.changes)
+                c.files.sort(key=lambda s: repr(s.meta))
+        self.step('edit_lists_in_place', i, f, True)
+        # the serialisation must follow the lists as they are now
+        try:
+            data = t.to_bytes()
+        except Exception:
+            return
+        try:
+            back = self.DiffX.from_bytes(data)
+            paths = [[fl.meta.get('path') for fl in c.files]
+                     for c in t.changes]
+            paths2 = [[fl.meta.get('path') for fl in c.files]
+                      for c in back.changes]
+            self.obs.count('list_edit_serialisations_compared')
+            if paths != paths2:
+                self.obs.violation('serialisation_ignores_list_edit',
+                                   self.case(), {'tree': paths,
+                                                 'bytes': paths2})
+                self.failed = True
+        except Exception:
+            pass
 
     def eq_matrix(self):
         out = []
@@ -83,6 +154,12 @@ class World(object):
             # isolation oracle still applies
             self.obs.count('op_raised:%s' % type(e).__name__)
         after = self.snaps()
+        inv = self.structure_fail()
+        if inv:
+            self.obs.violation('tree_views_disagree:%s' % inv[0],
+                               self.case(), {'tree': inv[1], 'after': name})
+            self.failed = True
+            return
         if eq_before is not None:
             # observers must not change how trees compare with each other
             # (state that is invisible in the public attributes still shows
@@ -301,7 +378,11 @@ class World(object):
         def f():
             o = sub.options
             r = self.rng.random()
-            if r < 0.5:
+            if r < 0.12:
+                # options may be manipulated directly; None = "not set"
+                o[self.rng.choice(['indent', 'mimetype', 'encoding',
+                                   'line_endings', 'type'])] = None
+            elif r < 0.5:
                 o['encoding'] = self.rng.choice(['utf-8', 'latin-1',
                                                  'utf-16'])
             elif r < 0.7 and o:
@@ -316,6 +397,8 @@ class World(object):
         attr, val = self.rng.choice([
             ('encoding', 'latin-1'), ('meta_encoding', 'utf-16'),
             ('meta', {'fresh': [1]}), ('meta_format', 'json'),
+            ('meta', {1: 'int keys only', 2: ['b', (3, 4)]}),
+            ('meta', {7: {8: 9}}),
             ('preamble', 'new text\n'), ('preamble_indent', 2),
             ('diff', b'+x\n'), ('diff_type', 'text'),
             ('diff_line_endings', 'unix'), ('preamble_mimetype',
@@ -394,7 +477,7 @@ OPS = [('op_construct_default', 6), ('op_construct_attrs', 6),
        ('op_serialise_writer', 8), ('op_to_bytes_twice', 6),
        ('op_mutate_meta', 14), ('op_mutate_options', 8),
        ('op_typed_assign', 10), ('op_generate_stats', 5),
-       ('op_observers', 8), ('op_drop', 3)]
+       ('op_observers', 8), ('op_drop', 3), ('op_edit_lists', 6)]
 
 
 def run_history(seed, length, obs):
